@@ -67,6 +67,7 @@ def run(ctx):
         "length for the list forms is outside the property",
         "values are compared as two's-complement bit patterns of their width (16-bit limbs)",
         "n beyond +-2^30 is logged clamped (only min(max(n,0),Len) matters), the real 64-bit argument beside it",
+        "degenerate inputs: a zero-length caller slice is nil every other time; Len and n around k*64 +- 1; runs of 255/256/257, 1023/1024/1025 and 65535/65536/65537 Set / Unset calls are one run-length-encoded event (setrun / unsetrun: the spec adds / removes the in-range indices of lo, lo+step, ...) and build the shape classes never used / filled by Set / exactly full / emptied by Unset / one member left / refilled, in each of which iteration, list forms, Reverse, Equal, Len are taken",
         "the caller owns what it was given: every returned slice (list forms, Marshal bytes, block lists) is overwritten by the harness (elements flipped, capacity refilled through s[:0]) once it has been rendered; equal values are encoded / listed repeatedly in one process with that in between, later calls are judged as usual",
         "late traces (about half): every returned list and every caller slice is kept as returned and rendered "
         "when the trace is over; a call that does not return within 40 s is logged as a `hang` event and rejected",
